@@ -11,10 +11,19 @@ the cursor fields, `_consumed` grows by the length of every chunk handed out;
 R5 (sync) size normalisation.  R6-R8 use a ghost "stream offset of _buffer[0]"
 (class _StreamModel): R6 every `.find(delimiter, ...)` on the buffer / on a
 fragment cut from it starts at or after the cursor; R7 (async, shared with C13
-as its R5) after a failed search of the buffered data an early hand-out leaves
-at least len(delimiter) - 1 bytes in the buffer; R8 (async generators) every
-yield hands out exactly the bytes between the previous cursor position and the
-cursor at the yield, and the cursor keeps its stream position in between.
+as its R5) after a failed search of the buffered data an early hand-out stays
+at least len(delimiter) - 1 bytes short of the end of the searched range (the
+end of the buffer and, for `.find(delimiter, start, end)`, the end bound:
+bytes.find needs the whole match inside [start, end)); R8 (async generators)
+every yield hands out exactly the bytes between the previous cursor position
+and the cursor at the yield, and the cursor keeps its stream position in
+between; R9 (sync) the same conservation for the synchronous reader, where
+bytes leave through return values, backlog appends and verified delimiter
+skips: at every exit, loop head and call of a method that moves the buffer the
+cursor stands exactly behind the last byte handed out -- in particular a
+buffer that is REPLACED by the next data of the stream is re-based together
+with `_buffer_pos` (reset on the same path in any order, or provably 0 / the
+old buffer provably drained and the cursor reset).
 """
 
 from __future__ import annotations
@@ -582,6 +591,18 @@ def _is_negative(env, r):
     return env.prove_le(r, 0) and any(n == r or n == -r for n in env.neq)
 
 
+def _prove_le(env, a, b, depth=3):
+    """a <= b, where b may contain an opaque +min(x, y) (bound evaluated before the deciding guard): a <= min(x, y) iff a <= x and a <= y."""
+    if env.prove_le(a, b):
+        return True
+    if depth > 0:
+        for at, k in b.t.items():
+            if at[0] == 'min' and k == 1:
+                rest = b - Lin.atom(at)
+                return all(_prove_le(env, a, rest + x, depth - 1) for x in at[1])
+    return False
+
+
 def _inlinable(callee, call):
     """A parameterless straight-line helper (e.g. _trim_buffer) is executed in place."""
     if call.args or call.keywords or callee.is_async or [a for a in callee.params() if a != 'self']:
@@ -814,8 +835,11 @@ class _StreamModel:
             new = env.eval(s.value)
             amount = new - old if isinstance(new, Lin) and isinstance(old, Lin) else None
         if isinstance(old, Lin) and self.is_delim_len(amount):
-            cur = env.ghost['base'] + old
-            self.hand_out(env, [('buf', cur, cur + amount, True)], s)
+            g = env.ghost
+            self.commit(env, 'when the delimiter is skipped')  # the skipped bytes are the ones directly behind the last hand-out
+            if not g['lost']:
+                g['prev'] = g['base'] + old + amount
+                g['replaced'] = ()
 
     def hand_out(self, env, ps, s):
         """The bytes `ps` leave the reader (returned, appended to the backlog, piped, or skipped as a delimiter):
@@ -1070,7 +1094,7 @@ class _StreamModel:
                 if not env.prove_le(st, lo):      # a search that started behind the first yielded byte does not vouch for this hand-out
                     continue
                 need = hi + self.dl - Lin.const(1)
-                short_of = [e for e in ends if not env.prove_le(need, e)]
+                short_of = [e for e in ends if not _prove_le(env, need, e)]
                 ok = not short_of
                 msg = '%r byte(s) lie between the end of the yielded region and the end of the searched range; not provably >= len(delimiter) - 1' % (
                     (short_of[0] - hi) if short_of else 0,)
@@ -1208,13 +1232,8 @@ def r9_sync_cursor_conservation(run):
     todo = [f for name, f in sorted(rd.methods.items()) if name != '__init__' and {BUF, BPOS} & _stores(f)]
     if len([f for f in todo if BUF in _stores(f)]) < 3:
         raise AnchorError('%s: fewer than 3 methods assign %s' % (SYNC, BUF))
-    n_rep = 0
     for f in todo:
-        m = _StreamModel(run, v, rd, f, 'R9', len_params={q for (mn, q) in dparams if mn == f.name})
-        m.execute()
-    n_rep = sum(1 for (q, kind) in v.items if kind.startswith('replaced @'))
-    if not n_rep:
-        raise AnchorError('%s: no method replaces the buffer by new data' % SYNC)
+        _StreamModel(run, v, rd, f, 'R9', len_params={q for (mn, q) in dparams if mn == f.name}).execute()
     v.flush()
 
 
